@@ -124,7 +124,7 @@ def ops_strategy():
         st.tuples(st.just("sync"), st.dictionaries(st.sampled_from(PATHS), key, min_size=1, max_size=2)),
         st.tuples(st.just("paths"), st.lists(st.sampled_from(PATHS), min_size=1, max_size=2)),
     )
-    return st.fixed_dictionaries(
+    general = st.fixed_dictionaries(
         {
             "cap": st.sampled_from(CAPS),
             "base": st.sampled_from(["memory", "local"]),
@@ -133,6 +133,18 @@ def ops_strategy():
             "ops": st.lists(op, min_size=1, max_size=30).map(_flatten),
         }
     )
+    # fetch storms: every key is present (one or two of them hold None, the others distinct weakref-able objects) and the
+    # operations are mostly fetches - the cache is full most of the time and None-valued blobs enter a full cache
+    storm_op = st.one_of(st.tuples(st.just("fetch"), key), st.tuples(st.just("fetch"), key), st.tuples(st.just("fetch"), key), st.tuples(st.just("has"), key))
+    storm = st.fixed_dictionaries(
+        {
+            "cap": st.sampled_from([1, 2, 3]),
+            "base": st.just("local"),
+            "vals": st.integers(1, 2).map(lambda n: {k: (None if i < n else {"obj": i}) for i, k in enumerate(KEYS)}),
+            "ops": st.tuples(st.permutations(KEYS), st.lists(storm_op, min_size=4, max_size=24)).map(lambda t: [["store", k] for k in t[0]] + [list(o) for o in t[1]]),
+        }
+    )
+    return st.one_of(general, general, general, storm)
 
 
 def mk_base(kind, scratch):
